@@ -63,10 +63,7 @@ Definition stream_run_unfixed (c : jcfg) (w : world) (ps : list (N * N)) (merged
                           else through_cursor_run merged forked start cu stop_for_files (j_bundle c)
              end in
       let fend := match r with
-                  | RsOk => (* the stop-block marker comes after the bundle containing the stop block; if the
-                               merged files end before, the file source polls for the next file: "waiting" *)
-                            if negb (j_stop c =? 0) && ((j_stop c / j_bundle c + 1) * j_bundle c <=? merged_end)
-                            then JStop else JNil
+                  | RsOk => file_end c merged_end
                   | RsResolveErr => JInvalidArg   (* Stream.Run maps ErrResolveCursor to invalid argument *)
                   | RsNotImplemented => JOther
                   | RsFuel => JFuel end in
